@@ -113,6 +113,38 @@ pub(super) fn latest_timestamp_file(
     }
 }
 
+// Determines the infix of the file to start with, for the case that the timestamp is used as infix
+// of the current output file (there is no "current" infix):
+// when appending, we continue with the newest existing file with the given timestamp infix,
+// if it is not compressed; in all other cases we choose an infix that does not collide
+// with an existing file.
+pub(super) fn infix_for_direct_start(config: &FileLogWriterConfig, ts_infix: &str) -> String {
+    const RESTART: &str = ".restart-";
+    let collision_free_infix = config
+        .file_spec
+        .collision_free_infix_for_rotated_file(ts_infix);
+    if config.append {
+        // the collision-free infix is the successor of the newest existing one
+        let o_latest_infix = collision_free_infix
+            .strip_prefix(ts_infix)
+            .and_then(|s| s.strip_prefix(RESTART))
+            .and_then(|number| number.parse::<usize>().ok())
+            .map(|number| {
+                if number == 0 {
+                    ts_infix.to_string()
+                } else {
+                    format!("{ts_infix}{RESTART}{:04}", number - 1)
+                }
+            });
+        if let Some(latest_infix) = o_latest_infix {
+            if config.file_spec.as_pathbuf(Some(&latest_infix)).exists() {
+                return latest_infix;
+            }
+        }
+    }
+    collision_free_infix
+}
+
 fn path_for_rotated_file_from_timestamp(
     file_spec: &FileSpec,
     use_utc: bool,
